@@ -150,6 +150,12 @@ theorem gpvStep_coherent (g : GpvState) (o : GpvOp) (h : GpvCoherent g) : GpvCoh
     by_cases e : k' = k
     · subst e; rw [aget_aput_same] at hc ⊢; exact hc
     · rw [aget_aput_other _ _ _ _ e] at hc ⊢; exact h k' v' hc
+  | add k d =>
+    intro k' v' hc
+    simp only [gpvStep] at hc ⊢
+    by_cases e : k' = k
+    · subst e; rw [aget_aput_same] at hc ⊢; exact hc
+    · rw [aget_aput_other _ _ _ _ e] at hc ⊢; exact h k' v' hc
   | drop k =>
     intro k' v' hc
     simp only [gpvStep, adel] at hc ⊢
@@ -170,5 +176,25 @@ theorem gpvLookup_stored (g : GpvState) (h : GpvCoherent g) (k : Nat) : gpvLooku
   cases hc : aget g.cache k with
   | none => rfl
   | some v => simp [h k v hc]
+
+/-- the stored reward-per-vote values do not depend on WHICH coherent cache the node holds (a running node's partial
+    cache, a restarted node's empty one): same storage before, same operations ⇒ same storage after -/
+theorem gpvStep_store_same (g₁ g₂ : GpvState) (o : GpvOp) (h1 : GpvCoherent g₁) (h2 : GpvCoherent g₂)
+    (hs : g₁.store = g₂.store) : (gpvStep g₁ o).store = (gpvStep g₂ o).store := by
+  cases o with
+  | write k v => simp [gpvStep, hs]
+  | add k d =>
+    simp only [gpvStep]
+    rw [gpvLookup_stored g₁ h1, gpvLookup_stored g₂ h2, hs]
+  | drop k => simp [gpvStep, hs]
+  | restart => simp [gpvStep, hs]
+
+theorem gpvRun_store_same (ops : List GpvOp) : ∀ g₁ g₂, GpvCoherent g₁ → GpvCoherent g₂ → g₁.store = g₂.store →
+    (gpvRun g₁ ops).store = (gpvRun g₂ ops).store := by
+  induction ops with
+  | nil => intro g₁ g₂ _ _ hs; exact hs
+  | cons o os ih =>
+    intro g₁ g₂ h1 h2 hs
+    exact ih _ _ (gpvStep_coherent g₁ o h1) (gpvStep_coherent g₂ o h2) (gpvStep_store_same g₁ g₂ o h1 h2 hs)
 
 end NeoModel.Ledger.Components
